@@ -16,7 +16,7 @@ pub const FLOORS: &[&str] = &[
     "two_loop_revisit", "removed_breakpoint_passed", "resume:continue", "resume:step", "resume:si",
     "resume:so", "loc:abs", "loc:label", "loc:pc", "break_before_first", "break_after_last",
     "break_doubled", "nondefault_origin", "trace_invariant_checked", "origin_below_statement_count", "pause_at_break_outside_image",
-    "reset_between_list_change_and_resume", "many_breakpoints", "break_with_label", "break_with_label_after_last", "pc_relative_breakpoint_after_eval_moved_the_pc",
+    "reset_between_list_change_and_resume", "many_breakpoints", "break_with_label", "break_with_label_after_last", "pc_relative_breakpoint_after_eval_moved_the_pc", "breakpoints_a_power_of_two_apart",
 ];
 
 struct Loopy {
@@ -431,7 +431,20 @@ fn random_case(seed: u64, i: u64) -> CaseOut {
         tame_endings: rng.chance(3, 4),
         ..Default::default()
     };
-    let built = gen_structured(&mut rng, &o);
+    let mut built = gen_structured(&mut rng, &o);
+    let spaced = rng.chance(1, 8);
+    if spaced {
+        // a long straight program, breakpoints a power of two apart (32, 64, 128, 256 words), some of them
+        // removed again before running: each one that is left still fires, each removed one does not
+        let mut items: Vec<Item> = match o.origin { Some(v) => vec![Item::Orig(v)], None => vec![] };
+        for k in 0..600 {
+            items.push(Item::Stmt { label: None, stmt: if k % 7 == 3 { Stmt::Not(1, 1) } else { Stmt::AddI(0, 0, 1) } });
+        }
+        items.push(Item::Stmt { label: None, stmt: Stmt::Alias(0x25) });
+        items.push(Item::End);
+        built.program = Program { items };
+        built.input.clear();
+    }
     let img = match encode(&built.program) {
         Verdict::Accept(img) => img,
         _ => {
@@ -442,6 +455,26 @@ fn random_case(seed: u64, i: u64) -> CaseOut {
     let lay = if rng.bool() { Layout::canonical() } else { Layout::random(&mut rng) };
     let text = render(&built.program, &lay, &mut rng).text;
     let mut cmds = Vec::new();
+    if spaced {
+        let stride = *rng.pick(&[32u16, 64, 64, 128, 256]);
+        let base = img.origin().wrapping_add(1 + rng.below(stride.min(40) as u64) as u16);
+        let mut set: Vec<u16> = (0..(560 / stride).min(5) + 1).map(|j| base.wrapping_add(j * stride)).collect();
+        set.push(base.wrapping_add(3));
+        for k in (1..set.len()).rev() {
+            let j = rng.below(k as u64 + 1) as usize;
+            set.swap(k, j);
+        }
+        for a in &set {
+            cmds.push(Cmd::BreakAdd(*a));
+        }
+        for a in set.iter().take(1 + rng.below(2) as usize) {
+            cmds.push(Cmd::BreakRemove(*a));
+        }
+        for _ in 0..set.len() {
+            cmds.push(Cmd::Continue);
+        }
+        out.class("breakpoints_a_power_of_two_apart");
+    }
     if rng.chance(1, 10) {
         // many breakpoints, added in no particular order (with repeats), some removed again: the list
         // stays sorted and duplicate-free however long it gets, and every one of them still fires
